@@ -109,6 +109,11 @@ def indexed_case(rng, extra=()):
         if not glob_noindels and rng.random() < 0.2:
             par += ";noindels"
         argv += ["-g" if front else "-a", f"a{i}=" + ("^" + t if front else t + "$") + par]
+    # sometimes one lone anchored adapter of the *other* kind next to the indexed group (it stays a plain entry of the regrouped list)
+    lone = None
+    if rng.random() < 0.3:
+        lone = "".join(rng.choice("ACGT") for _ in range(rng.randint(8, 12)))
+        argv += ["-a" if front else "-g", f"a{k}=" + (lone + "$" if front else "^" + lone)]
     if glob_noindels:
         argv.append("--no-indels")
     if rng.random() < 0.5:
@@ -144,6 +149,12 @@ def indexed_case(rng, extra=()):
             s_ = a + body if front else body + a
         else:
             s_ = body
+        if lone is not None and rng.random() < 0.45:
+            # the lone adapter at its own end - alone (the read starts/ends with random bases) or together with one of the indexed group
+            other = "".join(rng.choice("ACGT") for _ in range(rng.randint(6, 15)))
+            s_ = (other + lone) if front else (lone + other)
+            if rng.random() < 0.4:
+                s_ = (rng.choice(seqs) + other + lone) if front else (lone + other + rng.choice(seqs))
         if rng.random() < 0.1:
             s_ = s_.lower()
         q = "".join(chr(33 + rng.choice([2, 10, 20, 30, 40])) for _ in s_)
@@ -167,7 +178,7 @@ def indexed_case(rng, extra=()):
             q = "".join(chr(33 + rng.choice([2, 10, 20, 30, 40])) for _ in s_)
             reads.append((f"r{base + j} 1:N:0:1", s_, q))
     return dict(argv=argv, paired=False, reads1=reads, reads2=None, with_qual=True, interleaved_in=False, indexed=True,
-                adapter_names=[f"a{i}" for i in range(k)])
+                adapter_names=[f"a{i}" for i in range(k + (1 if lone is not None else 0))])
 
 
 def repeat_oracle(ctx, case, real):
